@@ -1,6 +1,6 @@
 (* C05 — failed or killed builds never poison the workspace (statements only). *)
-From Coq Require Import List NArith Arith Bool.
-Require Import BobV.Builder.Model BobV.Builder.Proofs.
+From Coq Require Import List NArith Arith Bool Permutation.
+Require Import BobV.Builder.Model BobV.Builder.Proofs BobV.Builder.Sched.
 Import ListNotations.
 Open Scope N_scope.
 
@@ -25,6 +25,26 @@ Theorem abort_recovers :
       cont (build hash c P w (sd_path sd)) = clean hash P (sd_path sd) /\
       result (build hash c P w (sd_path sd)) = Some (RHash (hash (clean hash P (sd_path sd)))).
 Proof. exact build_correct_proof. Qed.
+
+(* Killed -jN builds and repeated aborted builds: any sequence of partial or
+   complete executions of steps (of any project states, in any order, several
+   of them stopped midway), each computed against the state it found, keeps the
+   invariants of every workspace ... *)
+Theorem partial_executions_keep_invariants :
+  forall (hash : content -> Hsh) (is_src : N -> bool) (c : cfg) (l : list (stepdef * list mop)) (w : wstate),
+    AllInv hash is_src w -> partial_ok hash is_src c w l ->
+    AllInv hash is_src (fold_left (partial_step hash) l w).
+Proof. exact partial_executions_keep_invariants_proof. Qed.
+
+(* ... and the next build, whatever its schedule, ends with the clean results. *)
+Theorem recover_after_partial_executions :
+  forall (hash : content -> Hsh) (is_src : N -> bool) (c : cfg) (l : list (stepdef * list mop))
+         (P P' : project) (w : wstate),
+    AllInv hash is_src w -> partial_ok hash is_src c w l ->
+    wf is_src P -> wf is_src P' -> Permutation P P' ->
+    forall sd, In sd P ->
+      cont (build hash c P' (fold_left (partial_step hash) l w) (sd_path sd)) = clean hash P (sd_path sd).
+Proof. exact recover_after_partial_executions_proof. Qed.
 
 (* Bob never treats a step as up to date whose workspace was left incomplete:
    a build/package step is skipped only when the stored input hashes equal the
@@ -68,3 +88,20 @@ Example prune_then_kill_nonvacuous :
   runs (cook_package h0 cfg0 300 [7] killed) = true /\                            (* edit reverted: not skipped *)
   cont (exec h0 (cook_package h0 cfg0 300 [7] killed) killed) = Out 300 [7].
 Proof. vm_compute. auto 10. Qed.
+
+(* non-vacuity: two steps of a parallel build killed inside their scripts, a third one complete *)
+Definition pA := {| sd_path := 0; sd_kind := KCheckout true; sd_d := 100; sd_deps := [] |}.
+Definition pB := {| sd_path := 1; sd_kind := KBuild; sd_d := 200; sd_deps := [0] |}.
+Definition pC := {| sd_path := 2; sd_kind := KBuild; sd_d := 201; sd_deps := [0] |}.
+Definition psrc (p : N) : bool := N.eqb p 0.
+Definition w_a : wstate := build_step h0 cfg0 (fun _ => empty_slot) pA.
+
+Example parallel_kill_nonvacuous :
+  let tB := [MMkdir; MReset 200; MDelInputs; MSetTime; MRunCrash 200 false] in
+  let tC := [MMkdir; MReset 201; MDelInputs; MSetTime; MRunCrash 201 false] in
+  partial_ok h0 psrc cfg0 (fun _ => empty_slot)
+    [(pA, cook_step h0 cfg0 (fun _ => empty_slot) pA); (pB, tB); (pC, tC)] /\
+  let w := fold_left (partial_step h0) [(pA, cook_step h0 cfg0 (fun _ => empty_slot) pA); (pB, tB); (pC, tC)] (fun _ => empty_slot) in
+  map (fun p => cont (w p)) [1; 2] = [Partial 200; Partial 201] /\
+  map (fun p => cont (build h0 cfg0 [pA; pC; pB] w p)) [0; 1; 2] = map (clean h0 [pA; pB; pC]) [0; 1; 2].
+Proof. vm_compute. intuition. Qed.
